@@ -23,7 +23,13 @@ def parseOp (line : String) : Option (C17.Strat × List Nat × Nat) :=
     if bursts.all (fun b => 1 ≤ b && b ≤ 4096) && post ≤ 64 then pure (st, bursts, post) else none
   | _ => none
 
+def isTeardown (line : String) : Bool :=
+  match splitWs line with
+  | ["teardown", n] => match n.toNat? with | some k => 1 ≤ k && k ≤ 64 | none => false
+  | _ => false
+
 def model (line : String) : String :=
+  if isTeardown line then "teardown done" else
   match parseOp line with
   | some (st, bursts, post) => showObs (C17.modelObs st bursts post)
   | none => "bad-op"
@@ -52,6 +58,8 @@ def parseObs (obs : String) : Option C17.Obs :=
   | _ => none
 
 def monitor (op obs : String) : String :=
+  if isTeardown op then
+    (if obs = "teardown done" then "ok" else "FAIL data-race-on-ticker-teardown") else
   match parseOp op with
   | none => if obs = "bad-op" then "ok" else "FAIL bad-op"
   | some (st, bursts, post) =>
